@@ -117,6 +117,7 @@ def run(ctx):
     ctx.ob("T9-curvature-shape", cu.name, "term", "ok" if okt else "violation",
            "each term is Rational64::new(if loopless { 2 } else { 1 }, v)" if okt else "the per-orbit term is not (2 or 1)/v")
     symbol_digits(ctx, g)
+    symbol_parts(ctx, g)
     loopless_test(ctx, g)
     euler_formula(ctx, g)
     symbol_genus(ctx, g)
@@ -354,6 +355,68 @@ def boundary_shape(ctx, g):
         bad.append("corners are not recorded exactly for v > 1")
     ctx.ob("T9-boundary-shape", tb.name, "directions / third index / order / corner filter", "ok" if not bad else "violation",
            "start directions (i+1 | i+2) mod 3, k := 3 - j - k, corners with v > 1, components sorted descending" if not bad else "; ".join(bad))
+
+
+def symbol_parts(ctx, g):
+    """orbifold_symbol names the orbifold with ALL its cone points: the first part prints the whole list cone_degrees(ds) - every degree as often
+    as it occurs (442, 2222, 333), only reordered (sorted, then reversed: descending) - and each boundary component contributes `*` followed by
+    its own corner list, in the order trace_boundary found them"""
+    ctx.clauses.append("orbifold symbol prints the full cone list (with multiplicity, descending) and per boundary component `*` + its corners (T9)")
+    b = ctx.body(M + "orbifold_symbol")
+    ds = ("param", 1, b.debug.get(1, ""))
+    uses = list(b.calls("degree_list_as_string"))
+    bad = None
+    first = None
+    lit = [o for bi_, si_, s_ in b.assigns() if s_["rv"]["k"] == "aggregate" and s_["rv"].get("agg") == "array" and any(e["k"] == "deref" for e in s_["place"]["p"]) for o in [s_["rv"]["ops"]]]
+    # the vec! literal that starts `parts`
+    starts = [strip(norm(b.origin(o[0]), g)) for o in lit if len(o) == 1]
+    starts = [x for x in starts if is_call(x, "degree_list_as_string")]
+    if len(starts) != 1:
+        bad = "the symbol does not start with degree_list_as_string(cone list)"
+    else:
+        arg = strip(starts[0][2][0])
+        if arg[0] != "local":
+            bad = "the cone part is printed from %s, not from the list cone_degrees(ds) itself: degrees can be lost or merged on the way (a set keeps each degree once: 442 is printed as 42)" % show(arg, 1)[:70]
+        else:
+            defs = [strip(norm(d, g)) for _, d in b.all_defs_origins(arg[1])]
+            if defs != [("call", M + "cone_degrees", (ds,))]:
+                bad = "the cone part is printed from %s, not from cone_degrees(ds)" % [show(d, 1)[:50] for d in defs]
+            else:
+                use_bb = [bi for bi, t in uses if strip(norm(b.origin(t["args"][0]), g)) == arg]
+                touch = []
+                for bi, t in b.calls():
+                    nm = t["callee"].get("def", "")
+                    if nm.endswith("degree_list_as_string") or nm.endswith("cone_degrees"):
+                        continue
+                    if any(contains(norm(b.origin(a), g), lambda y: y == arg) for a in t["args"]):
+                        touch.append((bi, nm))
+                srt = [bi for bi, nm in touch if nm.endswith("::sort") or nm.endswith("::sort_unstable")]
+                rev = [bi for bi, nm in touch if nm.endswith("::reverse")]
+                other = [nm for bi, nm in touch if not (nm.endswith("::sort") or nm.endswith("::sort_unstable") or nm.endswith("::reverse") or nm.endswith("deref_mut") or nm.endswith("::deref"))]
+                if other:
+                    bad = "the cone list is changed by %s before it is printed (only reordering keeps every cone point)" % [o.split("::")[-1] for o in other]
+                elif not (len(srt) == 1 and len(rev) == 1 and len(use_bb) == 1 and b.dominates(srt[0], rev[0]) and b.dominates(rev[0], use_bb[0])):
+                    bad = "the cone list is not sorted and then reversed (descending) before it is printed"
+    ctx.ob("T9-symbol-parts", b.name, "cone part", "ok" if not bad else "violation",
+           "degree_list_as_string(cone_degrees(ds) sorted descending): every cone point is printed" if not bad else bad)
+    # boundary components
+    pushes = [(bi, strip(norm(b.origin(t["args"][1]), g))) for bi, t in b.calls("::push")]
+    star = [bi for bi, v in pushes if is_call(v, "to_string") and strip(v[2][0]) == ("str", "*")]
+    cor = [(bi, v) for bi, v in pushes if is_call(v, "degree_list_as_string")]
+    bad = None
+    if len(star) != 1 or len(cor) != 1:
+        bad = "not one `*` and one corner list per boundary component"
+    else:
+        el = strip(cor[0][1][2][0])
+        r = iter_source(b, el, g)
+        src_ok = isinstance(r, tuple) and contains(norm(r, g), lambda y: y == ("call", M + "trace_boundary", (ds,)))
+        lp1, lp2 = loop_containing(b, star[0]), loop_containing(b, cor[0][0])
+        if not src_ok:
+            bad = "the corner lists printed are not the components of trace_boundary(ds)"
+        elif lp1 is None or lp1 != lp2 or not b.dominates(star[0], cor[0][0]):
+            bad = "`*` and the component's corner list are not pushed together, `*` first, once per boundary component"
+    ctx.ob("T9-symbol-parts", b.name, "boundary parts", "ok" if not bad else "violation",
+           "for every component of trace_boundary(ds): `*`, then its corner degrees" if not bad else bad)
 
 
 def symbol_digits(ctx, g):
